@@ -1,4 +1,4 @@
-import Cicada.Lemmas.TermJobs
+import Cicada.Lemmas.TermReport
 /-!
 # C07 — the terminal belongs to the foreground job while it runs, else to the shell
 
@@ -15,6 +15,7 @@ Proved for every reachable state (every interleaving):
 * `C07_bg_never_owns`— no other job of the table ever does;
 * `C07_one_group`    — every stage of every pipeline is in the group led by its first stage from the parent's `setpgid` on
                        (this is what `fix:` 35a9330 established; `C07_before_fix_race` is the interleaving that broke it);
+* `C07_report_once`  — no job incarnation is announced as finished twice, and an announced one is absent from the table;
 * `C07_signal_whole`, `C07_ctrlZ_stops_pipeline` — a signal to the job's group (Ctrl-Z, Ctrl-C, the SIGCONT of `fg` / `bg`)
   reaches every member of the pipeline.
 Findings (model = implementation ≠ reference; classes in known_findings.json): the foreground wait counts one member
@@ -33,7 +34,7 @@ def cfg : Cfg := { parentSetpgid := true, interactive := true }
 def cfgBefore : Cfg := { parentSetpgid := false, interactive := true }
 
 /-- the clauses about a single state -/
-def StateClauses (s : State) : Prop := PromptOwns s ∧ FgOwns s ∧ BgNeverOwns s ∧ OneGroup s ∧ WaitComplete s
+def StateClauses (s : State) : Prop := PromptOwns s ∧ FgOwns s ∧ BgNeverOwns s ∧ OneGroup s ∧ ReportedOnce s ∧ WaitComplete s
 
 /-- **the property at full strength**: the clauses in every reachable state of an interactive session, for every
 interleaving of the shell's steps, the children's steps and the kernel's events; and every session of the property's
@@ -83,9 +84,14 @@ theorem C07_one_group {s : State} (h : Reachable cfg s) : OneGroup s := by
   · exact hg
   · simp [inSetpgidWindow, hl, hph] at hw
 
-/-- what is proved of the state clauses -/
-theorem C07_partial {s : State} (h : Reachable cfg s) : PromptOwns s ∧ FgOwns s ∧ BgNeverOwns s ∧ OneGroup s :=
-  ⟨C07_prompt_owns h, C07_fg_owns h, C07_bg_never_owns h, C07_one_group h⟩
+/-- a finished job is announced at most once (per incarnation: id and group id) and is gone from the table from
+then on; together with the fresh group id of every launch it can never be announced again -/
+theorem C07_report_once {c : Cfg} {s : State} (h : Reachable c s) : ReportedOnce s :=
+  ⟨(repInv_reachable h).ok.once, (repInv_reachable h).ok.absent⟩
+
+/-- what is proved of the state clauses: all but `WaitComplete` -/
+theorem C07_partial {s : State} (h : Reachable cfg s) : PromptOwns s ∧ FgOwns s ∧ BgNeverOwns s ∧ OneGroup s ∧ ReportedOnce s :=
+  ⟨C07_prompt_owns h, C07_fg_owns h, C07_bg_never_owns h, C07_one_group h, C07_report_once h⟩
 
 /-- outside a launch, a signal sent to a job's process group reaches every process of that pipeline -/
 theorem C07_signal_whole {s : State} (h : Reachable cfg s) (hm : ∀ l, s.mode ≠ .launching l) (g : Pid) (sg : Sig) :
